@@ -26,6 +26,7 @@ type Options struct {
 	NoReindex  bool
 	NoVacuity  bool
 	NoGroup    bool
+	Abstract   bool // the harness runs against contracts (stubs): a counterexample is a path and cannot be replayed as is
 	Sweep      bool // SAT-sweep the miter (merge solver-proved equivalent sub-terms bottom-up) before the final query
 	Setup      func(x *vexec.Exec, w *World)
 	Solver     string
@@ -468,6 +469,11 @@ func (w *World) Replay(inst Instance, ob *ObResult, saveDir string) (string, str
 
 // ReplayTape runs harness pkg.fn natively with the given tape file and returns the combined output.
 func (w *World) ReplayTape(pkg, fn, tapePath string) (string, error) {
+	return w.ReplayTapeTimeout(pkg, fn, tapePath, "120s")
+}
+
+// ReplayTapeTimeout is ReplayTape with an explicit go test timeout.
+func (w *World) ReplayTapeTimeout(pkg, fn, tapePath, timeout string) (string, error) {
 	p := w.TPkgs[ModPath+"/"+pkg]
 	if p == nil {
 		return "", fmt.Errorf("package %s not loaded", pkg)
@@ -505,7 +511,7 @@ func (w *World) ReplayTape(pkg, fn, tapePath string) (string, error) {
 	if err != nil {
 		return "", err
 	}
-	args := []string{"test", "-vet=off", "-count=1", "-overlay", ovf, "-run", "^TestVpReplay$", "-v", "-timeout", "120s"}
+	args := []string{"test", "-vet=off", "-count=1", "-overlay", ovf, "-run", "^TestVpReplay$", "-v", "-timeout", timeout}
 	if w.Tags != "" {
 		args = append(args, "-tags="+w.Tags)
 	}
